@@ -1,5 +1,5 @@
 CONSTANTS
-  Part = "codec"
+  Part = "posth"
   Keys <- MCKeys
   MacStrs <- MCMacStrs
   WinStrs <- MCWinStrs
@@ -15,6 +15,7 @@ CONSTANTS
 INIT Init
 NEXT Next
 CHECK_DEADLOCK FALSE
-INVARIANT CodecLaws
-INVARIANT MacTableSize
-INVARIANT StdNamesDistinct
+INVARIANT HistRoundTrip
+INVARIANT HistReadFaithful
+INVARIANT SharedIntact
+INVARIANT HistEmit
